@@ -45,17 +45,36 @@ Theorem C16_complete_and_current_at_rest :
   mem id (t_m t) = true -> cache st' c id = Some (ver st' id).
 Proof. exact reachable_complete. Qed.
 
-(* "detaching stops further runs", the part that holds in the code: detachConverterFromTag removes the tag's own
-   streams from the converter's queue (a stream stays queued only if another tag with the converter matches it).
-   Not a theorem (and not true of the Go code, see its TODO): output that stays cached for another tag's sake is
-   re-queued when its stream changes even if the only matching tag was the detached one; the harness checks that a
-   converter attached to no tag has nothing queued whenever no converter job is in flight. *)
-Theorem C16_detach_dequeues_partial :
+(* Detaching: detachConverterFromTag removes the tag's own streams from the converter's queue; a stream stays queued
+   only if another tag that keeps the converter matches it.  This is the whole statement, by design of the code; the
+   harness checks it right after every set-converter / delete-tag action (also while a converter job is in flight). *)
+Theorem C16_detach_dequeues :
   forall st n c t, tget n (tags st) = Some t ->
   forall id, mem id (toconv (detach st n c) c) = true ->
   mem id (toconv st c) = true /\
   (mem id (t_m t) = false \/ exists k b, In (k, b) (tags (detach st n c)) /\ k <> n /\ tag_has_conv c b = true /\ mem id (t_m b) = true).
 Proof. exact detach_dequeues. Qed.
+
+(* The stronger reading "after a detach no stream of the detached tag is converted by that converter any more" is
+   false, and meant to be: two marks on stream 0 keep converter 0; the second attach happens while the converter job
+   of the first is in flight, so stream 0 is queued; taking the converter from mark 2 leaves stream 0 queued because
+   mark 1 still matches it. *)
+Definition w_detach : list (N * action) :=
+  let md := mkDef 1 true false false false [] [] true in
+  [(0, AAddTag 1 md 1); (0, AAddTag 2 md 1); (0, ASetConv 1 [0]); (0, ASetConv 2 [0])].
+
+Theorem C16_detach_stops_all_runs_refuted :
+  let st := run repaired w_detach (init [0]) in
+  let st' := step repaired 0 (ASetConv 2 []) st in
+  (exists t, tget 2 (tags st) = Some t /\ mem 0 (t_m t) = true /\ tag_has_conv 0 t = true) /\
+  (exists t', tget 2 (tags st') = Some t' /\ t_conv t' = []) /\
+  mem 0 (toconv st' 0) = true.
+Proof.
+  split; [|split].
+  - eexists. split; [vm_compute; reflexivity|split; vm_compute; reflexivity].
+  - eexists. split; vm_compute; reflexivity.
+  - vm_compute. reflexivity.
+Qed.
 
 (* A converter never feeds the tag it is attached to: in every state reached by any history (any switches, any
    schedule) a live tag that keeps converters matches on neither stream data nor other tags.  attachConverterToTag
